@@ -1,5 +1,6 @@
 import CacheVerif.Proofs.CacheRefine
 import CacheVerif.Proofs.Twin
+import CacheVerif.Proofs.ConcCacheLin
 /-!
 # C09 — expiration instants are computed and reported exactly as the TTL dictates
 
@@ -108,6 +109,23 @@ theorem C09_report (s : St K V) (k : K) (i : Item V) (hg : s.items.get k = some 
     (step s (.getWithExpiration k)).2.out = .valExp i.v (if i.e > 0 then i.e else 0) true ∧
     (step s (.getWithTTL k)).2.out = .valTTL i.v (if i.e > 0 then i.e - s.now else -2000000000) true := by
   constructor <;> simp [step, Cache.get, AMap.load, hg, hl, Gen.NoExpiration]
+
+/-- **exact reporting, concurrent calls** (M5, `Model.ConcCache`; every reachable state of every schedule): the step at
+which `GetWithTTL` of an entry with an expiration instant computes the remaining lifetime reads the clock *again*
+(`time.Until`): it reports the value of the item `i` the call found, `true`, and `i.e - now` for the clock of that
+step — not the clock of the earlier step at which `i` was found live (`t0 ≤ now`); so the reported lifetime is at most
+`i.e - t0` (and is negative if the clock passed `i.e` in between).  Every other hit of the family reports as in
+`C09_report`, with the clock of the step that finds the item (`ConcCache.hitResult`). -/
+theorem C09_report_ttl_conc (dflt : Int) (cb : Option Nat) (now : Int) (h0 : 0 ≤ now) (s s' : ConcCache.St K V)
+    (t : ConcCache.Tid) (c : ConcCache.Choice K V) (δ : Nat) (hr : ConcCache.Reach dflt cb now s)
+    (hs : ConcCache.step s (some t) c δ = some s') (hpc : (s.l t).pc = .getTTLClock) :
+    ∃ i k t0, (s.l t).loaded = some i ∧ (s.l t).op = some (.getWithTTL k) ∧ 0 < i.e ∧
+      t0 ≤ s.g.now ∧ TTL.expired i.e t0 = false ∧
+      (s'.l t).result = some (.valTTL i.v (i.e - s.g.now) true) ∧ i.e - s.g.now ≤ i.e - t0 := by
+  obtain ⟨_, hl, hst, _, _⟩ := Proofs.ConcCacheLin.reach_tstep dflt cb now h0 s s' t c δ hr hs
+  obtain ⟨_, i, k, t0, a1, a2, a3, _, a5, a6, _, a8, a9⟩ :=
+    Proofs.ConcCacheLin.get_ttl_clock t s.g (s.l t) c s'.g (s'.l t) hl hpc hst
+  exact ⟨i, k, t0, a1, a2, a3, a5, a6, a8, a9⟩
 
 /-- **changing the default never alters entries already stored** -/
 theorem C09_default_isolated (s : St K V) (d : Int) :
